@@ -307,6 +307,10 @@ def run(ctx, rep):
     r197(ctx, rep, fo, m)
     r198(ctx, rep, fo, fc)
     r199(ctx, rep, m, members)
+    rep.rule("R19.10", "the second completion of the radii (initial radius fitted to the bounds) keeps radius_final <= radius_init")
+    from . import c18
+    from ..report import Renamed
+    c18.r182_fit(ctx, Renamed(rep, to="R19.10"), rule="R19.10")
 
 
 def enum_tables(ctx):
